@@ -15,7 +15,7 @@ import (
 	"github.com/miekg/dns"
 )
 
-//verif:harness H18_wire property=C18 native=yes quick=k=1,vmax=2,empty=0,mand=0,long=0;k=2,vmax=1,empty=0,mand=0,long=0;k=2,vmax=1,empty=1,mand=0,long=0;k=3,vmax=1,empty=0,mand=1,long=0;k=1,vmax=1,empty=0,mand=0,long=1 thorough=k=2,vmax=2,empty=0,mand=0,long=0;k=3,vmax=1,empty=0,mand=0,long=0;k=3,vmax=1,empty=1,mand=0,long=0
+//verif:harness H18_wire property=C18 native=yes quick=k=1,vmax=2,empty=0,mand=0,long=0;k=2,vmax=1,empty=0,mand=0,long=0;k=2,vmax=1,empty=1,mand=0,long=0;k=3,vmax=1,empty=0,mand=1,long=0;k=1,vmax=1,empty=0,mand=0,long=1 thorough=k=2,vmax=2,empty=0,mand=0,long=0;k=2,vmax=1,empty=1,mand=0,long=0
 
 var verifVmax = 2
 
